@@ -159,6 +159,9 @@ func (ft *ftrans) callTerm(e *env, ci *callInfo) string {
 		ft.callStmt(e, ci.recvCall, nil)
 	}
 	if ci.builtin != "" {
+		if (ci.builtin == "add64" || ci.builtin == "sub64") && !ft.carryArgOK(e, ci.args[2]) {
+			p.failAt(ci.node, "%s: the carry / borrow argument must be 0, 1 or a variable holding a carry (see carry.go)", ft.sum.key)
+		}
 		var as []string
 		for _, a := range ci.args {
 			as = append(as, ft.exprU(e, a))
